@@ -179,6 +179,13 @@ func (m *Reg) govAction(t *rapid.T) bool {
 		}
 		contract := w.Users[0].Addr.Hex() // unregistered
 		p, ok := m.pickPair(t, reg)
+		if ok && rapid.IntRange(0, 2).Draw(t, "preferSelfDestructible") == 0 {
+			for _, q := range reg.Pairs {
+				if tk := w.TokenAt(q.Addr); tk != nil && tk.Kind == KindFlex && !tk.Dead {
+					p = q
+				}
+			}
+		}
 		if ok && rapid.IntRange(0, 9).Draw(t, "unregisteredContract") != 0 {
 			contract = p.Addr.Hex()
 		}
@@ -240,6 +247,17 @@ func (m *Reg) govAction(t *rapid.T) bool {
 			target = tok.Addr
 		case c == 6:
 			target = p.Addr
+		case c == 7:
+			// another tracked contract with the same name, symbol and decimals (registered or not)
+			cur := w.TokenAt(p.Addr)
+			for _, tk := range w.Tokens {
+				if cur != nil && tk.Addr != cur.Addr && !tk.Dead && tk.Name == cur.Name && tk.Symbol == cur.Symbol && tk.Decimals == cur.Decimals {
+					target = tk.Addr
+				}
+			}
+			if target == (common.Address{}) {
+				return false
+			}
 		default:
 			if len(w.Tokens) == 0 {
 				return false
@@ -419,9 +437,17 @@ func (m *Reg) Step(t *rapid.T) {
 			t.Skip("nothing to do")
 		}
 	case "convert":
-		p, ok := m.pickPair(t, w.ReadRegistry(w.C.Ctx()))
+		reg := w.ReadRegistry(w.C.Ctx())
+		p, ok := m.pickPair(t, reg)
 		if !ok {
 			t.Skip("no pair")
+		}
+		if rapid.Bool().Draw(t, "preferDead") {
+			for _, q := range reg.Pairs {
+				if !w.HasCode(w.C.Ctx(), q.Addr) {
+					p = q
+				}
+			}
 		}
 		m.convert(t, p)
 	case "kill":
@@ -435,6 +461,13 @@ func (m *Reg) Step(t *rapid.T) {
 			t.Skip("no live flex token")
 		}
 		tok := flex[rapid.IntRange(0, len(flex)-1).Draw(t, "flex")]
+		if rapid.Bool().Draw(t, "preferMultiDenom") {
+			for _, q := range w.ReadRegistry(w.C.Ctx()).Pairs {
+				if tk := w.TokenAt(q.Addr); tk != nil && tk.Kind == KindFlex && !tk.Dead && len(q.Denoms) > 1 {
+					tok = tk
+				}
+			}
+		}
 		w.FlexKill(w.Users[0], tok)
 		m.logf("token %s self-destructs", tok.Addr.Hex())
 		m.R.Label("selfdestruct")
